@@ -15,10 +15,35 @@ EX = "exploration"
 
 # id: (built, level, technique, level text, level note, design ref)
 CHECKS = {
-    "C01": (False, MC, "", "", "", "4/C01"),
+    "C01": (
+        True, MC,
+        "step-transition system of every run of a complete product lattice (tables x pressure "
+        "pairs x node counts x time grids x schedules), invariants in every state / transition",
+        "Every simulation of the declared finite lattice (quick 1.4k runs / 58k transitions, "
+        "thorough 7k runs / 280k transitions) is executed by the library; the maximum-principle "
+        "bounds are evaluated in every state, space/time monotonicity on every transition under "
+        "constant drawdown, and relaxation to the frac-face value on every grid whose rigorous "
+        "backward-Euler decay bound is below 1e-8 (one huge step, a few huge steps, many small ones).",
+        "Nothing is claimed between lattice points; tolerance 1e-10*|m_i| is the rounding level of a "
+        "direct solve (measured worst 2e-13).",
+        "4/C01"),
     "C02": (False, EX, "", "", "", "4/C02"),
     "C03": (False, EX, "", "", "", "4/C03"),
-    "C04": (False, MC, "", "", "", "4/C04"),
+    "C04": (
+        True, MC,
+        "step-transition system: backward-Euler residual recomputed from public state on every "
+        "step of every lattice run; plus deviation-bounded exploration of solver answers "
+        "(CHESS-style, iterative scipy.sparse.linalg entry points intercepted from the harness)",
+        "S: on every step of every run the stored new level must satisfy the implicit update built "
+        "from the previous level, that step's dt and alpha_scaled(previous level) on interior rows "
+        "and the no-flow outer row with one least-squares mesh constant in [(nx-1)^2,(nx+1)^2], "
+        "residual <= 1e-12 of the step's scale. E: every run with <=1 (quick) / <=2 (thorough) "
+        "non-default solver answers out of {contract-limit error x2, not converged, breakdown} is "
+        "executed to completion; a stored result that fails the residual test without an exception "
+        "or warning is a violation. With a direct solver there are no choice points (reported).",
+        "Solver contract assumed: ||r|| <= max(rtol||b||, atol) with the rtol/atol the library "
+        "passes; dense LU in the harness is the exact answer.",
+        "4/C04"),
     "C05": (False, EX, "", "", "", "4/C05"),
     "C06": (False, EX, "", "", "", "4/C06"),
     "C07": (False, EX, "", "", "", "4/C07"),
